@@ -199,9 +199,9 @@ def outcome_letter(status, msg):
     return "o"
 
 
-def observe_run(spec, plan=None, backup=None, conv_err=False, max_calls=None, keep_tables=True):
+def observe_run(spec, plan=None, backup=None, conv_err=False, max_calls=None, keep_tables=True, solver=None):
     """run the real `WNTRSimulator.run_sim` on a fresh model with fault plan {call number: kind}.
-    backup: None | 'newton' | 'fsolve'.  Returns the observation dict."""
+    backup: None | 'newton' | 'fsolve'; solver: None (NewtonSolver) | 'fsolve'.  Returns the observation dict."""
     wntr = vlib.import_wntr()
     import numpy as np
     import scipy.optimize
@@ -273,6 +273,8 @@ def observe_run(spec, plan=None, backup=None, conv_err=False, max_calls=None, ke
         return orig_save(wn_, node_res, link_res)
 
     kw = {"convergence_error": conv_err}
+    if solver == "fsolve":
+        kw["solver"] = scipy.optimize.fsolve
     if backup == "newton":
         kw["backup_solver"] = NewtonSolver
         kw["backup_solver_options"] = {"MAXITER": 500}
@@ -371,7 +373,7 @@ def expected_status(obs):
     return "finished"
 
 
-def model_line(obs, cap=2000000):
+def model_line(obs, cap=10 ** 15):
     rep = obs["report"]
     rep = 0 if isinstance(rep, str) else int(rep)
     pres = ",".join(str(int(p[3])) for p in obs["pres"]) or "-"
@@ -413,6 +415,10 @@ def judge(case, obs, ref):
     if obs["exc"] is not None and obs["exc"][0] == "Runaway":
         return [("no-termination", "run_sim made more solver calls than the proved bound allows: " + obs["exc"][1])]
     if got is None:
+        if obs["exc"][0] == "TypeError" and "NoneType.__format__" in obs["exc"][1]:
+            return [("scipy-solver-converged-typeerror",
+                     "run_sim raised TypeError (%s) after a scipy solver converged (its iteration count is None); solver outcomes %s, backup %s"
+                     % (obs["exc"][1], "".join(obs["outs"]), obs["backup"]))]
         return [("unexpected-exception-%s" % obs["exc"][0], "run_sim raised %s: %s" % obs["exc"])]
     if got != exp:
         if exp == "finished":
@@ -533,6 +539,9 @@ class C16(Check):
         cases = [{"spec": spec, "plan": {}, "backup": None, "conv_err": False, "kind": "clean"}]
         if rng.random() < 0.5:
             cases.append({"spec": spec, "plan": {}, "backup": "newton", "conv_err": True, "kind": "clean"})
+        if rng.random() < 0.3:  # a scipy solver as the primary solver (documented: "NewtonSolver or Scipy solver")
+            cases.append({"spec": spec, "plan": ({rng.randrange(max(n, 1)): "fake"} if rng.random() < 0.5 else {}), "backup": None,
+                          "conv_err": rng.random() < 0.5, "kind": "fsolve-primary", "solver": "fsolve"})
         ks = list(range(n))
         if not exhaustive and len(ks) > 10:
             ks = sorted(rng.sample(ks, 10))
@@ -541,7 +550,7 @@ class C16(Check):
                 combos = [(kind, bk, ce) for kind in FAULT_KINDS for bk in (None, "newton") for ce in (False, True)]
                 combos.append((rng.choice(FAULT_KINDS), "fsolve", rng.random() < 0.5))
             else:
-                combos = [(rng.choice(FAULT_KINDS), rng.choice([None, None, "newton"]), rng.random() < 0.5)]
+                combos = [(rng.choice(FAULT_KINDS), rng.choice([None, None, "newton", "newton", "fsolve"]), rng.random() < 0.5)]
                 if rng.random() < 0.3:
                     combos.append((rng.choice(FAULT_KINDS), "newton", rng.random() < 0.5))
             for kind, bk, ce in combos:
@@ -565,7 +574,8 @@ class C16(Check):
             refs = {}
             for case in cases:
                 spec = case["spec"]
-                obs = observe_run(spec, case["plan"], case["backup"], case["conv_err"], max_calls=self.bound(spec))
+                obs = observe_run(spec, case["plan"], case["backup"], case["conv_err"], max_calls=self.bound(spec),
+                                  solver=case.get("solver"))
                 exp = expected_status(obs)
                 ref = None
                 if exp != "finished":
@@ -577,12 +587,12 @@ class C16(Check):
                         keep = dict(case["plan"])
                     else:
                         keep = {k: v for k, v in case["plan"].items() if int(k) < last_first}
-                    rk = json.dumps([sorted(keep.items()), case["backup"] if keep else None])
-                    if not keep:
+                    rk = json.dumps([sorted(keep.items()), case["backup"] if keep else None, case.get("solver")])
+                    if not keep and not case.get("solver"):
                         ref = clean
                     else:
                         if rk not in refs:
-                            refs[rk] = observe_run(spec, keep, case["backup"], False, max_calls=self.bound(spec))
+                            refs[rk] = observe_run(spec, keep, case["backup"], False, max_calls=self.bound(spec), solver=case.get("solver"))
                         ref = refs[rk]
                     if exp.endswith("Trials"):
                         ref = None  # the reference run of a trial overflow is the same run: nothing to compare
@@ -599,6 +609,7 @@ class C16(Check):
                 for o in obs["outs"]:
                     ctx.count("outcome:" + o)
                 ctx.count("backup:" + str(case["backup"]))
+                ctx.count("solver:" + str(case.get("solver") or "newton"))
                 ctx.count("conv_err:" + str(case["conv_err"]))
                 if partial:
                     ctx.count("runs_with_partial_step")
@@ -609,6 +620,7 @@ class C16(Check):
                 elif obs["report"] != obs["hyd"]:
                     ctx.count("report:coarser")
                 replay = {"spec": spec, "plan": case["plan"], "backup": case["backup"], "conv_err": case["conv_err"], "kind": case["kind"],
+                          "solver": case.get("solver"),
                           "observed": {"status": status_of(obs), "expected": exp, "outs": "".join(obs["outs"]),
                                        "posts": "".join("1" if b else "0" for b in obs["posts"]),
                                        "pres": [list(map(float, p[:2])) + [p[2], float(p[3])] for p in obs["pres"]],
@@ -618,8 +630,8 @@ class C16(Check):
                 if len(ctx.samples) < 4 and (obs["kinds_hit"] or partial) and ctx.rng.random() < 0.2:
                     ctx.sample({"controls": spec.get("c16_controls"), "options": spec["options"], "plan": case["plan"],
                                 "backup": case["backup"], "conv_err": case["conv_err"], "observed": replay["observed"]})
-                if obs["exc"] is not None and obs["exc"][0] == "Runaway":
-                    continue
+                if obs["exc"] is not None and (obs["exc"][0] == "Runaway" or status_of(obs) is None):
+                    continue  # an exception the model has no name for is already a Failure above; nothing to compare
                 if not integral_times(obs):
                     broken.append(Broken("correspondence", "integral clock", "non-integral clock value observed: %s" % obs["pres"][:6]))
                     continue
@@ -672,7 +684,7 @@ class C16(Check):
             spec = item["spec"]
             clean = observe_run(spec, None, None, False, max_calls=self.bound(spec))
             case = {"spec": spec, "plan": item.get("plan", {}), "backup": item.get("backup"), "conv_err": item.get("conv_err", False),
-                    "kind": item.get("kind", "corpus")}
+                    "kind": item.get("kind", "corpus"), "solver": item.get("solver")}
             groups.append((clean, [case]))
             ctx.count("corpus")
         nspec = 10 if ctx.quick else 40
@@ -708,7 +720,7 @@ class C16(Check):
         spec = rp["spec"]
         clean = observe_run(spec, None, None, False, max_calls=self.bound(spec))
         case = {"spec": spec, "plan": rp.get("plan", {}), "backup": rp.get("backup"), "conv_err": rp.get("conv_err", False),
-                "kind": rp.get("kind", "replay")}
+                "kind": rp.get("kind", "replay"), "solver": rp.get("solver")}
         fs, bs = self.run_cases(ctx, [(clean, [case])])
         want = r.get("key")
         hit = [f for f in fs if want is None or f.key == want]
